@@ -310,7 +310,8 @@ def option_set(ch, nfuncs, pthread=True, allow_r=False):
     if ch.below(3) == 0:
         opts.append('-g')
     if ch.below(4) == 0:
-        opts += ['-d', ch.pick(('arrays', 'gnu-ld'))]
+        # sectcreate1 / sectcreate2 (Mach-O linkers) produce C that this host cannot link, but the translator run itself is in scope
+        opts += ['-d', ch.pick(('arrays', 'gnu-ld', 'gnu-ld', 'sectcreate1', 'sectcreate2'))]
     if ch.below(5) == 0:
         opts.append('-c')
     return opts
